@@ -1,4 +1,4 @@
-import sys; sys.path.insert(0,'/tmp/fixes'); from edit import rep
+import sys; sys.path.insert(0,'/verif/tools'); from edit import rep
 rep('segno/encoder.py', """            idx = seq.find(n3_pattern, offset)
         return count""", """            # Occurrences may overlap (at idx + 4 or idx + 6), do not skip them
             idx = seq.find(n3_pattern, idx + 4)
